@@ -57,8 +57,28 @@ Lemma vaxis_modes_frame t t' :
   T.height t' = T.height t -> vaxis_modes t = true -> vaxis_modes t' = true.
 Proof. intros E1 E2 E3 E4 E5 H. unfold vaxis_modes in *. now rewrite E1, E2, E3, E4, E5. Qed.
 
-Definition okstep (e w h : Z) (res : T.tres T.term) (r' : term) : Prop :=
-  exists t', res = T.TOk t' /\ TP.WFs0 e w h t' /\ vaxis_modes t' = true /\ emu_rel t' r'.
+(* what a step of the vocabulary never touches: which screen is active, mode 1049, and - while
+   the alternate screen is active - the primary screen (what a later resize re-prints) *)
+Definition keeps_prim (t t' : T.term) : Prop :=
+  T.t_onalt t' = T.t_onalt t /\ T.m_smcup (T.t_md t') = T.m_smcup (T.t_md t) /\
+  (T.t_onalt t = true -> T.t_prim t' = T.t_prim t).
+
+Lemma keeps_prim_refl t : keeps_prim t t.
+Proof. repeat split. Qed.
+
+Lemma keeps_prim_trans a b c : keeps_prim a b -> keeps_prim b c -> keeps_prim a c.
+Proof.
+  intros (A1 & A2 & A3) (B1 & B2 & B3). split; [congruence|]. split; [congruence|].
+  intros H. rewrite B3 by congruence. now apply A3.
+Qed.
+
+Lemma keeps_prim_set_active t g : keeps_prim t (T.set_active t g).
+Proof. unfold keeps_prim, T.set_active. destruct (T.t_onalt t) eqn:E; cbn; repeat split; auto; intros; discriminate. Qed.
+
+Ltac kp := first [ apply keeps_prim_refl | split; [reflexivity|split; [reflexivity|intros _; reflexivity]] ].
+
+Definition okstep (e w h : Z) (t : T.term) (res : T.tres T.term) (r' : term) : Prop :=
+  exists t', res = T.TOk t' /\ TP.WFs0 e w h t' /\ vaxis_modes t' = true /\ emu_rel t' r' /\ keeps_prim t t'.
 
 (* ------------------------------------------------------------------ SGR arithmetic *)
 
@@ -196,18 +216,18 @@ Qed.
 (* a step that only changes the pen *)
 Lemma pen_step p' tp tl :
   pen_shows (S.mkStyle p' (S.link (T.t_pen t)) (S.linkp (T.t_pen t))) tp tl ->
-  okstep e w h (T.TOk (T.set_pen t (S.mkStyle p' (S.link (T.t_pen t)) (S.linkp (T.t_pen t)))))
+  okstep e w h t (T.TOk (T.set_pen t (S.mkStyle p' (S.link (T.t_pen t)) (S.linkp (T.t_pen t)))))
          (set_link (set_pen r tp) tl).
 Proof.
   intros Hp. eexists; split; [reflexivity|]. split; [now apply TP.WFs_set_pen|].
   split; [eapply vaxis_modes_frame; try exact HM; reflexivity|].
-  destruct HR. constructor; auto.
+  split; [destruct HR; constructor; auto | kp].
 Qed.
 
 Lemma sgr_step params p' :
   S.term_sgr params (S.spen (T.t_pen t)) = S.Ok p' ->
   forall tp, pen_shows (S.mkStyle p' (S.link (T.t_pen t)) (S.linkp (T.t_pen t))) tp (tm_link r) ->
-  okstep e w h (T.update t (T.TCsi [] params 109)) (set_pen r tp).
+  okstep e w h t (T.update t (T.TCsi [] params 109)) (set_pen r tp).
 Proof.
   intros Hs tp Hp.
   change (T.update t (T.TCsi [] params 109)) with (T.sgr t params). unfold T.sgr. rewrite Hs.
@@ -231,7 +251,7 @@ Proof.
   split; [rewrite shown_to; exact H1|]. split; [rewrite shown_link_to; exact Hl | exact H2].
 Qed.
 
-Lemma step_sgr_reset : okstep e w h (emu_toks tw t [KSgrReset]) (interp1 tw r KSgrReset).
+Lemma step_sgr_reset : okstep e w h t (emu_toks tw t [KSgrReset]) (interp1 tw r KSgrReset).
 Proof.
   unfold emu_toks. cbn [flat_map enc_tok app emu_feed interp1].
   destruct (sgr_step [] S.pen0 eq_refl tpen0) as [t' [E H]].
@@ -240,7 +260,7 @@ Proof.
 Qed.
 
 Lemma step_fg ps : colour_ok ps = true -> zlen ps <= 1 ->
-  okstep e w h (emu_toks tw t [KFg ps]) (interp1 tw r (KFg ps)).
+  okstep e w h t (emu_toks tw t [KFg ps]) (interp1 tw r (KFg ps)).
 Proof.
   intros Hc _. unfold emu_toks. cbn [flat_map enc_tok app interp1]. rewrite app_nil_r.
   destruct (emu_fg (S.spen (T.t_pen t)) ps Hc) as [params [Ee Hf]]. rewrite Ee.
@@ -253,7 +273,7 @@ Qed.
 
 
 Lemma step_bg ps : colour_ok ps = true ->
-  okstep e w h (emu_toks tw t [KBg ps]) (interp1 tw r (KBg ps)).
+  okstep e w h t (emu_toks tw t [KBg ps]) (interp1 tw r (KBg ps)).
 Proof.
   intros Hc. unfold emu_toks. cbn [flat_map enc_tok app interp1]. rewrite app_nil_r.
   destruct (emu_bg (S.spen (T.t_pen t)) ps Hc) as [params [Ee Hf]]. rewrite Ee.
@@ -265,7 +285,7 @@ Proof.
 Qed.
 
 Lemma step_sgr n : In n plain_codes ->
-  okstep e w h (emu_toks tw t [KSgr n]) (interp1 tw r (KSgr n)).
+  okstep e w h t (emu_toks tw t [KSgr n]) (interp1 tw r (KSgr n)).
 Proof.
   intros Hn. unfold emu_toks. cbn [flat_map enc_tok app interp1 emu_feed]. unfold sgr1.
   destruct pen_facts as [Hp [_ Ha]].
@@ -284,7 +304,7 @@ Proof.
 Qed.
 
 Lemma step_link ps url : existsb (Z.eqb 59) ps = false ->
-  okstep e w h (emu_toks tw t [KLink ps url]) (interp1 tw r (KLink ps url)).
+  okstep e w h t (emu_toks tw t [KLink ps url]) (interp1 tw r (KLink ps url)).
 Proof.
   intros Hps. unfold emu_toks. cbn [flat_map enc_tok app interp1 emu_feed T.update].
   assert (Eo : T.osc t (56 :: 59 :: ps ++ 59 :: url) = T.TOk (T.set_pen t (S.mkStyle (S.spen (T.t_pen t)) url ps))).
@@ -295,6 +315,7 @@ Proof.
   destruct pen_facts as [Hp [_ Ha]].
   eexists; split; [reflexivity|]. split; [now apply TP.WFs_set_pen|].
   split; [eapply vaxis_modes_frame; try exact HM; reflexivity|].
+  split; [|kp].
   destruct HR. constructor; auto.
   cbn [T.t_pen T.set_pen]. unfold pen_shows.
   split; [rewrite shown_to; exact Hp|]. split; [|exact Ha].
@@ -302,7 +323,7 @@ Proof.
 Qed.
 
 (* cursor visibility, shape, mouse shape *)
-Lemma step_show : okstep e w h (emu_toks tw t [KShowCursor]) (interp1 tw r KShowCursor).
+Lemma step_show : okstep e w h t (emu_toks tw t [KShowCursor]) (interp1 tw r KShowCursor).
 Proof.
   unfold emu_toks. cbn [flat_map enc_tok app interp1 emu_feed].
   change (T.update t (T.TCsi [63] [[25]] 104)) with (T.TOk (T.set_md t (T.md_tcem (T.t_md t) true))).
@@ -311,10 +332,10 @@ Proof.
   - destruct (vaxis_modes_facts t HM) as (A & B & C & D & E & F). unfold vaxis_modes. cbn.
     change (T.height (T.set_md t (T.md_tcem (T.t_md t) true))) with (T.height t). rewrite A, B, C, D, E, F.
     rewrite !Z.eqb_refl. reflexivity.
-  - destruct HR. constructor; auto.
+  - split; [destruct HR; constructor; auto | kp].
 Qed.
 
-Lemma step_hide : okstep e w h (emu_toks tw t [KHideCursor]) (interp1 tw r KHideCursor).
+Lemma step_hide : okstep e w h t (emu_toks tw t [KHideCursor]) (interp1 tw r KHideCursor).
 Proof.
   unfold emu_toks. cbn [flat_map enc_tok app interp1 emu_feed].
   change (T.update t (T.TCsi [63] [[25]] 108)) with (T.TOk (T.set_md t (T.md_tcem (T.t_md t) false))).
@@ -323,11 +344,11 @@ Proof.
   - destruct (vaxis_modes_facts t HM) as (A & B & C & D & E & F). unfold vaxis_modes. cbn.
     change (T.height (T.set_md t (T.md_tcem (T.t_md t) false))) with (T.height t). rewrite A, B, C, D, E, F.
     rewrite !Z.eqb_refl. reflexivity.
-  - destruct HR. constructor; auto.
+  - split; [destruct HR; constructor; auto | kp].
 Qed.
 
 Lemma step_shape n : 0 <= n <= 65535 ->
-  okstep e w h (emu_toks tw t [KCursorStyle n]) (interp1 tw r (KCursorStyle n)).
+  okstep e w h t (emu_toks tw t [KCursorStyle n]) (interp1 tw r (KCursorStyle n)).
 Proof.
   intros Hn. unfold emu_toks. cbn [flat_map enc_tok app interp1 emu_feed].
   assert (Eu : T.update t (T.TCsi [32] [[n]] 113) = T.TOk (T.set_shape t n)).
@@ -335,16 +356,16 @@ Proof.
     unfold T.clamp_ps. case_if; [lia|reflexivity]. }
   rewrite Eu. cbn [T.tbind]. eexists; split; [reflexivity|]. split; [now apply TP.WFs_set_shape|].
   split; [eapply vaxis_modes_frame; try exact HM; reflexivity|].
-  destruct HR. constructor; auto.
+  split; [destruct HR; constructor; auto | kp].
 Qed.
 
-Lemma step_mouse m : okstep e w h (emu_toks tw t [KMouseShape m]) (interp1 tw r (KMouseShape m)).
+Lemma step_mouse m : okstep e w h t (emu_toks tw t [KMouseShape m]) (interp1 tw r (KMouseShape m)).
 Proof.
   unfold emu_toks. cbn [flat_map enc_tok app interp1 emu_feed T.update].
   assert (Eo : T.osc t (50 :: 50 :: 59 :: m) = T.TOk t).
   { unfold T.osc. change (T.cut59 (50 :: 50 :: 59 :: m)) with ([50; 50], m, true). reflexivity. }
   rewrite Eo. cbn [T.tbind]. exists t; split; [reflexivity|]. split; [assumption|]. split; [assumption|].
-  destruct HR. constructor; auto.
+  split; [destruct HR; constructor; auto | kp].
 Qed.
 
 
@@ -379,7 +400,7 @@ Proof.
 Qed.
 
 Lemma step_cup row col : small row = true -> small col = true ->
-  okstep e w h (emu_toks tw t [KCup row col]) (interp1 tw r (KCup row col)).
+  okstep e w h t (emu_toks tw t [KCup row col]) (interp1 tw r (KCup row col)).
 Proof.
   intros Hr Hc. unfold small in *. destruct dims as [Dr Dc].
   unfold emu_toks. cbn [flat_map enc_tok app interp1 emu_feed].
@@ -389,6 +410,7 @@ Proof.
   assert (B2 : 0 <= clampz 0 (w - 1) (col - 1) < w) by (destruct HW; unfold clampz; lia).
   eexists; split; [reflexivity|]. split; [apply TP.WFs_set_cursor; auto; now apply TP.WFs_set_last|].
   split; [eapply vaxis_modes_frame; try exact HM; reflexivity|].
+  split; [|kp].
   destruct HR as [A1 A2 A3 A4 A5 A6 A7 A8]. rewrite Dr, Dc.
   constructor; auto; cbn [T.t_row T.t_col T.t_last T.set_cursor T.set_last tm_row tm_col tm_cols set_cur].
   left. rewrite Dc. repeat split; lia.
@@ -492,7 +514,7 @@ Proof.
 Qed.
 
 Lemma step_glyph g k : 1 <= k -> tm_col r + k <= tm_cols r ->
-  okstep e w h (T.print t g k) (put_glyph r g k).
+  okstep e w h t (T.print t g k) (put_glyph r g k).
 Proof.
   intros Hk Hfit. destruct dims as [Dr Dc].
   pose proof HR as [A1 A2 A3 A4 A5 A6 A7 A8].
@@ -527,6 +549,9 @@ Proof.
     - apply TP.WFs_set_col; [exact W5 | lia]. }
   split.
   { eapply vaxis_modes_frame; try exact HM; auto. rewrite Hh'. symmetry. apply (TP.WFs_height e w h t HW). }
+  split.
+  2:{ unfold t', t5, keeps_prim, T.set_active. destruct (T.t_col t + k >=? w); destruct (T.t_onalt t); cbn;
+        repeat split; auto; intros; discriminate. }
   constructor; cbn [tm_rows tm_cols tm_grid tm_row tm_col tm_pen tm_link tm_vis tm_shape set_cur set_grid].
   - rewrite Hh'. congruence.
   - rewrite Hw'. congruence.
@@ -564,14 +589,14 @@ Proof.
 Qed.
 
 Lemma step_text g : 1 <= tw g -> tm_col r + tw g <= tm_cols r ->
-  okstep e w h (emu_toks tw t [KText g]) (interp1 tw r (KText g)).
+  okstep e w h t (emu_toks tw t [KText g]) (interp1 tw r (KText g)).
 Proof.
   intros H1 H2. unfold emu_toks. cbn [flat_map enc_tok app interp1 emu_feed T.update].
   destruct (step_glyph g (tw g) H1 H2) as [t' [E H]]. rewrite E. cbn [T.tbind emu_feed]. exists t'; auto.
 Qed.
 
 Lemma step_space : tm_col r + 1 <= tm_cols r ->
-  okstep e w h (emu_toks tw t [KSpace]) (interp1 tw r KSpace).
+  okstep e w h t (emu_toks tw t [KSpace]) (interp1 tw r KSpace).
 Proof.
   intros H2. unfold emu_toks. cbn [flat_map enc_tok app interp1 emu_feed T.update].
   destruct (step_glyph [32] 1 ltac:(lia) H2) as [t' [E H]]. rewrite E. cbn [T.tbind emu_feed]. exists t'; auto.
@@ -588,7 +613,7 @@ Proof. intros H. apply existsb_exists in H. destruct H as [x [Hx E]]. assert (n 
    well-formed emulator state in Vaxis' modes that holds what the reference terminal shows *)
 Theorem emu_simulates_refterm tw e w h t r k :
   TP.WFs0 e w h t -> vaxis_modes t = true -> emu_rel t r -> step_ok tw r k ->
-  okstep e w h (emu_toks tw t [k]) (interp1 tw r k).
+  okstep e w h t (emu_toks tw t [k]) (interp1 tw r k).
 Proof.
   intros HW HM HR (Hal & Hok & Hfit).
   destruct k; cbn [allowed term_caps cap_rgb cap_styled_ul cap_sync cap_explicit_width orb andb tok_ok fits] in *;
@@ -616,15 +641,18 @@ Qed.
 
 Theorem emu_simulates_refterm_list tw e w h : forall ks t r,
   TP.WFs0 e w h t -> vaxis_modes t = true -> emu_rel t r -> toks_ok tw r ks ->
-  okstep e w h (emu_toks tw t ks) (interp tw r ks).
+  okstep e w h t (emu_toks tw t ks) (interp tw r ks).
 Proof.
   induction ks as [|k ks IH]; intros t r HW HM HR Hok.
-  - exists t. split; [reflexivity|]. split; [exact HW|]. split; [exact HM | exact HR].
+  - exists t. split; [reflexivity|]. split; [exact HW|]. split; [exact HM|]. split; [exact HR | apply keeps_prim_refl].
   - destruct Hok as [Hk Hrest].
-    destruct (emu_simulates_refterm tw e w h t r k HW HM HR Hk) as [t1 [E1 [W1 [M1 R1]]]].
+    destruct (emu_simulates_refterm tw e w h t r k HW HM HR Hk) as [t1 [E1 [W1 [M1 [R1 K1]]]]].
     unfold emu_toks in *. cbn [flat_map] in *. rewrite app_nil_r in E1.
     rewrite emu_feed_app, E1. cbn [T.tbind].
-    unfold interp. cbn [fold_left]. apply (IH t1 (interp1 tw r k) W1 M1 R1 Hrest).
+    unfold interp. cbn [fold_left].
+    destruct (IH t1 (interp1 tw r k) W1 M1 R1 Hrest) as [t2 [E2 [W2 [M2 [R2 K2]]]]].
+    exists t2. split; [exact E2|]. split; [exact W2|]. split; [exact M2|]. split; [exact R2|].
+    exact (keeps_prim_trans _ _ _ K1 K2).
 Qed.
 
 (* ------------------------------------------------------------------ whole frames and histories *)
@@ -761,7 +789,7 @@ Proof.
     pose proof (render_correct tw measure term_caps s2 r C2 S2 Y2 Hok) as H.
     destruct (do_render s2) as [s' o]. cbv zeta in H. intros Htok.
     destruct H as [S' [Y' [R' [N' [C' [SN [CR SY]]]]]]].
-    destruct (emu_simulates_refterm_list tw e w h o t r HW HM HR Htok) as [t' [E' [W' [M' Rl']]]].
+    destruct (emu_simulates_refterm_list tw e w h o t r HW HM HR Htok) as [t' [E' [W' [M' [Rl' _]]]]].
     exists t'. split; [exact E'|].
     assert (Hdims : tm_rows (interp tw r o) = tm_rows r /\ tm_cols (interp tw r o) = tm_cols r).
     { destruct S' as [[D1 _] _]. destruct S2 as [[D1' _] _]. rewrite N' in D1.
